@@ -337,7 +337,7 @@ class Build:
             kind, payload = op[1], op[2]
             if kind == 'slice':
                 idx = list(range(u.n))[slice(*payload)]
-            elif kind in ('list', 'tuple', 'ndarray'):
+            elif kind in ('list', 'tuple') or kind.startswith('ndarray'):
                 idx = [i % u.n if u.n else i
                        for i in refmodel.resolve_index_form(payload, u.n)]
             else:
